@@ -27,6 +27,9 @@ def run(ck):
     ck.run_rule(v1_bypass)
     ck.run_rule(v2_terminal_values)
     ck.run_rule(v3_mate_score)
+    from .c04 import x3_poll_placement
+    ck.run_rule(x3_poll_placement)
+    ck.run_rule(v4_no_mate_score_outside_the_terminal_test)
     # the terminal test relies on the legal move list being complete and filtered (shared rule of C01)
     from .c01 import g4_legality_filter
     ck.run_rule(g4_legality_filter)
@@ -278,3 +281,34 @@ def v3_mate_score(ck):
     ttb = TermBuilder(prog, iti)
     cut = [t for bb, t in live_calls(iti) if callee_name(t).endswith("PartialOrd::ge") and any(const_value(ttb.operand(a)) == POS for a in t["args"])]
     ck.req(len(cut) >= 1, "V3.search_cutoff", "analyze_iterative", iti.where(), "the iterative deepening loop does not stop on best_eval >= POS_INF")
+
+
+def v4_no_mate_score_outside_the_terminal_test(ck):
+    """The search scores its leaves and move-less nodes by calling the evaluator, which decides mate / draw itself from the legal move list.
+    A mate score produced inside the search functions (directly or by a spliced helper that skips that decision) must sit under the same
+    guards as in the evaluator - the position has no legal move and its side is in check - otherwise a node the search merely believes to
+    be move-less (e.g. by its node counter) is scored as mate although it has moves."""
+    prog = ck.prog
+    n = 0
+    for fn in ("weechess_engine::searcher::Searcher::analyze_recursive", "weechess_engine::searcher::Searcher::quiescence_search"):
+        b = ck.body(fn, "V4")
+        tb = TermBuilder(prog, b)
+        names = names_of(b)
+        sp = [i for i in range(1, b.arg_count + 1) if b.local_ty(i).endswith("state::State") or b.local_ty(i).endswith("&weechess_core::state::State")]
+        S = ("param", sp[0]) if sp else None
+        for bb, t in live_calls(b, names=(EV + "Evaluation::mate_in_ply",)):
+            n += 1
+            g = guards_of(prog, b, bb, tb)
+            g = g + [x for x in path_guards(prog, b, bb) if x not in g]
+            empty = any(tk is True and is_call(c, "is_empty") and any(is_call(x, "MoveGenerator::compute_legal_moves") for x in walk(c)) for c, tk in g)
+            check = any(tk is True and is_call(c, STATE + "is_check") for c, tk in g)
+            # the search's own move-less test - its node counter did not move over the move loop - is as good as the empty list when every
+            # visited node counts itself before anything can return (C04's X3, run just before this rule)
+            cnt = [i for i in range(1, b.arg_count + 1) if b.local_name(i) == "nodes_searched"]
+            counter_eq = bool(cnt) and any(tk is True and c[0] == "bin" and c[1] == "Eq" and any(x == ("param", cnt[0]) for x in walk(c)) for c, tk in g)
+            x3_ok = not any(o.rule.startswith("X3.") and o.status != "ok" for o in ck.obs)
+            empty = empty or (counter_eq and x3_ok)
+            ck.req(empty and check, "V4.search_mate_guard", "%s@L%s" % (fn.split("::")[-1], t.get("line")), b.where(t.get("line")),
+                   "a mate score is produced inside the search without the guards `no legal move` (the generated legal move list is empty) and `in check`: "
+                   "guards are %s" % [(show(c)[:50], tk) for c, tk in g][-3:])
+    ck.ok("V4.search_mate_guard", "search functions", "", "%d mate-score construction(s) inside analyze_recursive / quiescence_search, each under the terminal guards" % n)
